@@ -190,6 +190,9 @@ def run_invariants(ctx: Ctx):
             for name, flag in zip(bad, parts[2]):
                 if flag != "T":
                     bad[name] += 1
+            if len(parts[2]) > 4:      # the certificate of C03w_certificate_sound on the last store (sufficient for marked constraints to hold with wildcards)
+                key = "wildcard_certificate_true" if parts[2][4] == "T" else "wildcard_certificate_false"
+                ctx.stats[key] = ctx.stats.get(key, 0) + 1
             if len(parts[2]) > 3:      # the decidable hypothesis of C16s_history_independent_partial (concrete arguments only)
                 key = {"T": "history_independence_hypothesis_true", "F": "history_independence_hypothesis_false"}.get(parts[2][3], "history_independence_not_applicable")
                 ctx.stats[key] = ctx.stats.get(key, 0) + 1
